@@ -1,5 +1,8 @@
 import PyYetiVerif.Model.Fixtime
+import PyYetiVerif.Model.FixtimeTnew
+import PyYetiVerif.Model.FixtimeDrops
 import PyYetiVerif.Model.Psd
+import PyYetiVerif.Model.PsdOct
 import PyYetiVerif.Model.Resample
 /-! Line protocol for C19.  Sections of a request are separated by `|`.
 Rationals travel as `n` or `n/d` (exact); floats as decimal `UInt64` bit patterns.
@@ -9,7 +12,10 @@ exact (`Rat`)
 `cl told… | tnew…`                  → `_find_closest_times` (ints, may be -1) or `index-error`
 `pv told… | tnew…`                  → `_find_closest_previous_times`
 `cls told… | tnew…` / `pvs …`       → the numba (sequential) variants, or `index-error`
+`fxd deldrops delout | told… | drop flags… | sortvec…` → `_del_drops/_del_outtimes/_get_alldrops`:
+                                       `dropouts…(or none)|outtimes…|alldrops…|keep…`
 `rlen ln p q`                       → length of `resample`'s output
+`mkt sr | told…`                    → `_mk_initial_tnew`: `tnew…|tp…|align|delt|mismatch` or `raises`
 `tn t0 t1 ln p q`                   → the returned positions `tnew`
 `rcq ext | FLin | FUin | P | FL | FU` → `rescaleCore`:  `psd…|ms…|msv`
 `rfq ext | P | F | freq`            → `rescaleFreq` (linear scales only, else `nonlinear`):
@@ -17,8 +23,11 @@ exact (`Rat`)
 numeric (`Float`)
 `area f p f p …`                    → `psd.area`
 `ilog x… | f p f p …` / `ilin …`    → `psd.interp(linear=False|True)`
-`edges c…`                          → `_get_fl_fu`: `FL…|FU…`
+`edges c…`                          → `_get_fl_fu`: `FL…|FU…|lin` (`lin` = 1 when the linear branch was taken)
+`inedges c…`                        → edges of the input scale (`np.all(Df == Df[0])` first): `FL…|FU…|exact`
+`edgesq c…` / `inedgesq c…`         → the same at `Rat` (linear branch only, else `nonlinear`)
 `rcf …` / `rff …`                   → as `rcq` / `rfq` at `Float`
+`oct exact trim | n fr0 e [anchor]`   → `get_freq_oct`: `F…|FL…|FU…` or `value-error` (trim: o c i)
 `fir p q pts | w…`                  → FIR taps
 `rs p q pts | w… | data…`           → `resample`
 anything else → `bad-op` -/
@@ -48,6 +57,9 @@ instance : Psd.PsdOps Float := ⟨Float.log, Float.exp, Float.sqrt⟩
 /-- `Rat` runs only the linear band scales (the driver refuses the others), `sqrt` is unused. -/
 instance : Psd.PsdOps Rat := ⟨fun _ => 0, fun _ => 0, fun _ => 0⟩
 instance : NatCast Float := ⟨Float.ofNat⟩
+instance : PsdOct.OctOps Float :=
+  ⟨Float.log2, Float.log10, Float.pow, Float.floor,
+    fun x => if x ≤ 0 then 0 else if x.isFinite then x.ceil.toUInt64.toNat else 0⟩
 instance : Resample.SincOps Float := ⟨Float.sin, 3.141592653589793⟩
 
 def pairs {β : Type} : List β → Option (List (β × β))
@@ -91,6 +103,19 @@ def answer (line : String) : String :=
         match Fixtime.prevSeq a v with
         | some idx => pure (fmtNats idx)
         | none => pure "index-error"
+    | [["fxd", dd, dout], told, flags, sv] => do
+        let dd ← parseBool dd; let dout ← parseBool dout
+        let told ← parseRats told
+        let flags ← flags.mapM parseBool
+        let sv ← sv.mapM (·.toNat?)
+        let r := Fixtime.fixtimeDrops told flags dd dout (if sv.isEmpty then none else some sv)
+        let d := match r.dropouts with | some d => fmtNats d | none => "none"
+        pure s!"{d}|{fmtNats r.outtimes}|{fmtNats r.alldrops}|{fmtNats r.keep}"
+    | [["mkt", sr], told] => do
+        let sr ← parseRat sr; let told ← parseRats told
+        match Fixtime.mkInitialTnew told sr with
+        | some r => pure s!"{fmtRats r.tnew}|{fmtNats r.tp}|{if r.align then 1 else 0}|{fmtRat r.delt}|{if r.mismatch then 1 else 0}"
+        | none => pure "raises"
     | [["rlen", ln, p, q]] => do
         let ln ← ln.toNat?; let p ← p.toNat?; let q ← q.toNat?
         if p = 0 ∨ q = 0 then none else pure (toString (Resample.resampleLen ln p q))
@@ -124,7 +149,21 @@ def answer (line : String) : String :=
     | [("edges" :: c)] => do
         let c ← parseFs c
         let (l, u) := Psd.getFlFu c
-        pure s!"{fmtFs l}|{fmtFs u}"
+        pure s!"{fmtFs l}|{fmtFs u}|{if Psd.isLinTol c then 1 else 0}"
+    | [("inedges" :: c)] => do
+        let c ← parseFs c
+        let (l, u) := Psd.inEdges c
+        pure s!"{fmtFs l}|{fmtFs u}|{if Psd.isLinExact c then 1 else 0}"
+    | [("edgesq" :: c)] => do
+        let c ← parseRats c
+        if !(Psd.isLinTol c) then pure "nonlinear" else
+        let (l, u) := Psd.getFlFu c
+        pure s!"{fmtRats l}|{fmtRats u}"
+    | [("inedgesq" :: c)] => do
+        let c ← parseRats c
+        if !(Psd.isLinExact c || Psd.isLinTol c) then pure "nonlinear" else
+        let (l, u) := Psd.inEdges c
+        pure s!"{fmtRats l}|{fmtRats u}"
     | [["rcf", e], a, b, c, d, f] => do
         let e ← parseBool e
         let a ← parseFs a; let b ← parseFs b; let c ← parseFs c
@@ -136,6 +175,22 @@ def answer (line : String) : String :=
         match Psd.rescaleFreq p f fr e with
         | some (r, lo, hi) => pure s!"{lo} {hi}|{fmtResF r}"
         | none => pure "value-error"
+    | [["oct", ex, tr], args] => do
+        let ex ← parseBool ex
+        let tr ← match tr with
+          | "o" => some PsdOct.Trim.outside | "c" => some PsdOct.Trim.center
+          | "i" => some PsdOct.Trim.inside | _ => none
+        let a ← parseFs args
+        match a with
+        | [n, f0, e] =>
+            match PsdOct.getFreqOct n f0 e ex tr none with
+            | some (F, FL, FU) => pure s!"{fmtFs F}|{fmtFs FL}|{fmtFs FU}"
+            | none => pure "value-error"
+        | [n, f0, e, an] =>
+            match PsdOct.getFreqOct n f0 e ex tr (some an) with
+            | some (F, FL, FU) => pure s!"{fmtFs F}|{fmtFs FL}|{fmtFs FU}"
+            | none => pure "value-error"
+        | _ => none
     | [["fir", p, q, pts], w] => do
         let p ← p.toNat?; let q ← q.toNat?; let pts ← pts.toNat?; let w ← parseFs w
         if p = 0 ∨ q = 0 then none else
